@@ -136,6 +136,22 @@ static ASTNode *parse_function(Stage1Parser *p, bool is_extern, bool is_pub);
 static ASTNode *parse_opaque_type(Stage1Parser *p);
 static ASTNode *parse_match_expr(Stage1Parser *p);
 
+/* Depth accounting for recursive paths that do not pass through parse_expression / parse_block
+ * (unary chains, else-if chains, nested unsafe blocks, nested types).  Returns false, with a
+ * diagnostic, when the nesting limit is exceeded; the caller must not recurse then. */
+static bool enter_nested(Stage1Parser *p, const char *what) {
+    p->recursion_depth++;
+    if (p->recursion_depth > MAX_RECURSION_DEPTH) {
+        Token *tok = current_token(p);
+        parser_error(p, tok ? tok->line : 0, tok ? tok->column : 0,
+                     "Error at line %d, column %d: %s nested deeper than the maximum (%d)\n",
+                     tok ? tok->line : 0, tok ? tok->column : 0, what, MAX_RECURSION_DEPTH);
+        p->recursion_depth--;
+        return false;
+    }
+    return true;
+}
+
 /* Create AST nodes */
 static ASTNode *create_node(ASTNodeType type, int line, int column) {
     ASTNode *node = calloc(1, sizeof(ASTNode));  /* Use calloc to zero-initialize */
@@ -295,7 +311,16 @@ static Type parse_type(Stage1Parser *p) {
 */
 
 /* Parse type annotation with optional element_type output (for arrays) and type_param_name for generics */
+static Type parse_type_unguarded(Stage1Parser *p, Type *element_type_out, char **type_param_name_out, FunctionSignature **fn_sig_out, TypeInfo **type_info_out);
 static Type parse_type_with_element(Stage1Parser *p, Type *element_type_out, char **type_param_name_out, FunctionSignature **fn_sig_out, TypeInfo **type_info_out) {
+    /* types nest through this function only (array<..>, List<..>, tuples, fn(..)): count every level */
+    if (!enter_nested(p, "Type")) return TYPE_UNKNOWN;
+    Type type = parse_type_unguarded(p, element_type_out, type_param_name_out, fn_sig_out, type_info_out);
+    p->recursion_depth--;
+    return type;
+}
+
+static Type parse_type_unguarded(Stage1Parser *p, Type *element_type_out, char **type_param_name_out, FunctionSignature **fn_sig_out, TypeInfo **type_info_out) {
     Type type = TYPE_UNKNOWN;
     Token *tok = current_token(p);
 
@@ -1082,7 +1107,14 @@ static ASTNode *parse_prefix_op(Stage1Parser *p) {
                 capacity *= 2;
                 args = realloc(args, sizeof(ASTNode*) * capacity);
             }
-            args[count++] = parse_expression(p);
+            ASTNode *arg = parse_expression(p);
+            if (!arg) {
+                /* a failed argument may not have consumed anything: give up instead of looping */
+                for (int i = 0; i < count; i++) free_ast(args[i]);
+                free(args);
+                return NULL;
+            }
+            args[count++] = arg;
         }
 
         if (!expect(p, TOKEN_RPAREN, "Expected ')' after prefix operation")) {
@@ -1123,7 +1155,14 @@ static ASTNode *parse_prefix_op(Stage1Parser *p) {
                 capacity *= 2;
                 args = realloc(args, sizeof(ASTNode*) * capacity);
             }
-            args[count++] = parse_expression(p);
+            ASTNode *arg = parse_expression(p);
+            if (!arg) {
+                for (int i = 0; i < count; i++) free_ast(args[i]);
+                free(args);
+                free(func_name);
+                return NULL;
+            }
+            args[count++] = arg;
         }
 
         if (!expect(p, TOKEN_RPAREN, "Expected ')' after function call")) {
@@ -1307,7 +1346,9 @@ static ASTNode *parse_primary(Stage1Parser *p) {
             int line = tok->line;
             int column = tok->column;
             advance(p);  /* consume 'not' */
+            if (!enter_nested(p, "Unary operators")) return NULL;
             ASTNode *operand = parse_operand(p);
+            p->recursion_depth--;
             if (!operand) return NULL;
             ASTNode *not_node = create_node(AST_PREFIX_OP, line, column);
             not_node->as.prefix_op.op = TOKEN_NOT;
@@ -1322,7 +1363,9 @@ static ASTNode *parse_primary(Stage1Parser *p) {
             int line = tok->line;
             int column = tok->column;
             advance(p);  /* consume '-' */
+            if (!enter_nested(p, "Unary operators")) return NULL;
             ASTNode *operand = parse_operand(p);
+            p->recursion_depth--;
             if (!operand) return NULL;
             ASTNode *neg_node = create_node(AST_PREFIX_OP, line, column);
             neg_node->as.prefix_op.op = TOKEN_MINUS;
@@ -2306,7 +2349,9 @@ static ASTNode *parse_if_expression(Stage1Parser *p) {
         /* Check for 'else if' - parse as nested if expression */
         Token *next = current_token(p);
         if (next && next->token_type == TOKEN_IF) {
+            if (!enter_nested(p, "else-if chain")) return NULL;
             else_branch = parse_if_expression(p);
+            p->recursion_depth--;
         } else {
             else_branch = parse_block(p);
         }
@@ -2886,7 +2931,12 @@ static ASTNode *parse_statement(Stage1Parser *p) {
                     statements = realloc(statements, sizeof(ASTNode*) * capacity);
                 }
 
+                if (!enter_nested(p, "unsafe blocks")) {
+                    free(statements);
+                    return NULL;
+                }
                 ASTNode *stmt = parse_statement(p);
+                p->recursion_depth--;
                 if (stmt) {
                     statements[count++] = stmt;
                 } else {
